@@ -21,8 +21,9 @@ EXTENDS Naturals, Sequences, FiniteSets, TLC, Json, IOUtils, TLCExt
 Traces == JsonDeserialize(IOEnv.TRACE_FILE)
 CONSTANT Hs,
          Focus      \* "" = report the first clause that fails; otherwise only this clause is reported (the others are other properties')
-VARIABLES tid, l, now, alive, flagged, when, cancelled, selfexited, due, obj, rematch, gonewhilealive, paused, exiting, verdict
-vars == <<tid, l, now, alive, flagged, when, cancelled, selfexited, due, obj, rematch, gonewhilealive, paused, exiting, verdict>>
+VARIABLES tid, l, now, alive, flagged, when, cancelled, selfexited, due, obj, rematch, gonewhilealive, paused, exiting, verdict,
+          selft, mft, racy      \* F33: the instant of an own exit, of the last stopping view processed, and whether they coincided
+vars == <<tid, l, now, alive, flagged, when, cancelled, selfexited, due, obj, rematch, gonewhilealive, paused, exiting, verdict, selft, mft, racy>>
 T == Traces[tid].events
 E == T[l]
 Conf == Traces[tid].conf
@@ -32,7 +33,7 @@ Init == /\ tid \in 1..Len(Traces) /\ l = 1 /\ now = 0
         /\ cancelled = [h \in Hs |-> FALSE] /\ selfexited = [h \in Hs |-> FALSE] /\ due = [h \in Hs |-> FALSE]
         /\ obj = [exists |-> FALSE, deleting |-> FALSE, match |-> FALSE]
         /\ rematch = [h \in Hs |-> FALSE] /\ gonewhilealive = FALSE /\ paused = FALSE /\ exiting = FALSE
-        /\ verdict = "ok"
+        /\ verdict = "ok" /\ selft = [h \in Hs |-> 0] /\ mft = 0 /\ racy = [h \in Hs |-> FALSE]
 
 Bad(v) == verdict' = IF verdict = "ok" /\ (Focus = "" \/ Focus = v) THEN v ELSE verdict
 Good == UNCHANGED verdict
@@ -44,6 +45,13 @@ MustFlag(e) == e.deleting \/ ~e.match \/ paused
 Step ==
   /\ l <= Len(T) /\ l' = l + 1 /\ UNCHANGED tid
   /\ now' = E.t
+  \* F33 bookkeeping: a function that returns on its own in the very instant in which a view that stops it is processed
+  /\ LET stopping_view == E.ev = "proc" /\ E.type # "DELETED" /\ MustFlag(E)
+         own == E.ev = "exit" /\ ~flagged[E.h] /\ ~cancelled[E.h] /\ E.how = "returned"
+     IN /\ mft' = IF stopping_view THEN E.t ELSE mft
+        /\ selft' = IF own THEN [selft EXCEPT ![E.h] = E.t] ELSE selft
+        /\ racy' = [h \in Hs |-> racy[h] \/ (own /\ h = E.h /\ mft = E.t /\ mft # 0)
+                                          \/ (stopping_view /\ selfexited[h] /\ selft[h] = E.t)]
   /\ LET late == {h \in Hs : due[h] /\ E.t > now} IN        \* time passes although a flag is due
      CASE E.ev = "obj" ->
             /\ obj' = [exists |-> E.exists, deleting |-> E.deleting, match |-> E.match]
@@ -61,7 +69,7 @@ Step ==
             /\ due' = [due EXCEPT ![E.h] = FALSE] /\ rematch' = [rematch EXCEPT ![E.h] = FALSE]
             /\ UNCHANGED <<when, selfexited, obj, gonewhilealive, paused, exiting>>
             /\ IF alive[E.h] > 0 THEN Bad("two_instances_at_once")
-               ELSE IF selfexited[E.h] THEN Bad("restarted_after_exiting_on_its_own")
+               ELSE IF selfexited[E.h] THEN (IF racy[E.h] THEN Bad("F33") ELSE Bad("restarted_after_exiting_on_its_own"))
                ELSE Good
        [] E.ev = "flagseen" ->
             /\ flagged' = [flagged EXCEPT ![E.h] = TRUE] /\ when' = [when EXCEPT ![E.h] = E.t]
